@@ -11,6 +11,13 @@
   `render_inj`: under `Decodable`, `render t` is injective on admissible token streams (`Adm`:
   symbol tokens of the table, subscripts non-zero and never adjacent).
   `adm_polish` / `adm_std`: the writers' streams of constructible sentences are admissible.
+
+  Lookahead (`DecodableG`, `DecodableLA`, `Fol`, `excused`): a prefix pair (atomic, other symbol) —
+  `E` / `E!` in the standard tables — is excused when the remainder starts with a character that
+  nothing following an atomic in a standard stream starts with; `Fol true` (delivered for the
+  standard writer by `LangStdFol.fol_standard`) is that follower discipline.
+  `render_inj_tail`: the same with mark tails after the streams (`heads`; used by C19 for the
+  marks of a tableau node).
 -/
 import Ptx.Proofs.LangStdInj
 import Ptx.Proofs.LangParseBasic
@@ -95,17 +102,107 @@ theorem append_prefix_cases {a b R1 R2 : List Chr} (h : a ++ R1 = b ++ R2) :
   · left; rw [List.isPrefixOf_iff_prefix]; exact ⟨a', hb.symm⟩
   · right; rw [List.isPrefixOf_iff_prefix]; exact ⟨c', ha.symm⟩
 
+/-! ### lookahead: follower discipline of a stream, mark heads after a stream
+
+  Standard tables: the atomic `E` is a prefix of the Existence symbol `E!`.  In a STANDARD stream an
+  atomic token is followed by a subscript, a blank, a close paren or the end; `excused` accepts a
+  prefix pair (atomic, k2) whose remainder starts with a character that none of these (nor a mark
+  head) starts with.  `heads` are strings that may follow a complete stream (the marks of a
+  tableau node, C19): each must be prefix-incomparable with every non-blank symbol, with the
+  subscript opener and with `blank ++ infix symbol` (in a standard stream a blank is written only
+  next to a binary operator / identity / negated identity, and a complete stream does not end in
+  one of these). -/
+
+/-- infix symbols: a blank is written only next to one of these -/
+def WTok.inF : WTok → Bool
+  | .op2 _ | .identity | .negIdentity => true
+  | _ => false
+
+def optInF : Option WTok → Bool
+  | some k => k.inF
+  | none => false
+
+def WTok.isAtom : WTok → Bool
+  | .atom _ => true
+  | _ => false
+
+/-- what may follow an atomic token in a standard stream -/
+def atomNextOK : Option WTok → Bool
+  | none => true
+  | some k => k.isSub || k == .ws || k == .parenClose
+
+def okStep (std : Bool) (prev : Option WTok) (k : WTok) (nx : Option WTok) : Bool :=
+  std == false ||
+  match k with
+  | .atom _ => atomNextOK nx
+  | .ws => optInF prev || optInF nx
+  | _ => true
+
+/-- follower discipline (`std = true`; nothing is asked of a Polish stream): an atomic is followed by
+    a subscript / blank / close paren / nothing; a blank has an infix symbol on one side; the stream
+    does not end in an infix symbol.  `prev` is the token before the stream. -/
+def Fol (std : Bool) : Option WTok → List WTok → Prop
+  | prev, [] => std = true → optInF prev = false
+  | prev, k :: rest => okStep std prev k rest.head? = true ∧ Fol std (some k) rest
+
+def incomp (a b : List Chr) : Bool := !a.isPrefixOf b && !b.isPrefixOf a
+
+theorem incomp_absurd {a b R1 R2 : List Chr} (hi : incomp a b = true) (h : a ++ R1 = b ++ R2) : False := by
+  simp only [incomp, Bool.and_eq_true, Bool.not_eq_true'] at hi
+  rcases append_prefix_cases h with p | p
+  · rw [hi.1] at p; cases p
+  · rw [hi.2] at p; cases p
+
+/-- a prefix pair (atomic `k1`, `k2`) is excused when the character after `k1` in `k2` starts nothing
+    that can follow an atomic -/
+def excused (t : StringTable) (heads : List (List Chr)) (k1 k2 : WTok) : Bool :=
+  k1.isAtom &&
+  match (renderTok t k2).drop (renderTok t k1).length with
+  | [] => false
+  | c :: _ => !isDigitChr c && t.subOpen.head? != some c && t.ws.head? != some c &&
+      (renderTok t .parenClose).head? != some c && heads.all (fun mk => mk.head? != some c)
+
+def headOK (t : StringTable) (toks : List WTok) (mk : List Chr) : Bool :=
+  (match mk with | [] => false | c :: _ => !isDigitChr c) &&
+  (t.subOpen.isEmpty || incomp mk t.subOpen) &&
+  toks.all (fun k => k == .ws || incomp mk (renderTok t k)) &&
+  toks.all (fun k => !k.inF || incomp mk (renderTok t .ws ++ renderTok t k))
+
+/-- general decidable condition over an explicit token list: `Decodable` + excusal (`std`) + mark heads;
+    without `std`, mark heads are only allowed when the blank is not a token of the streams -/
+def DecodableG (t : StringTable) (toks : List WTok) (std : Bool) (heads : List (List Chr)) : Bool :=
+  toks.all (fun k => match renderTok t k with | [] => false | c :: _ => !isDigitChr c) &&
+  toks.all (fun k1 => toks.all fun k2 =>
+    k1 == k2 || !(renderTok t k1).isPrefixOf (renderTok t k2) || (std && excused t heads k1 k2)) &&
+  (match t.subOpen with
+   | [] => t.subClose.isEmpty
+   | _ :: _ =>
+     (match t.subClose with | [] => false | c :: _ => !isDigitChr c) &&
+     toks.all (fun k => !(t.subOpen.isPrefixOf (renderTok t k)) && !((renderTok t k).isPrefixOf t.subOpen))) &&
+  toks.all (fun k => !k.isSub) &&
+  heads.all (headOK t toks) &&
+  (std || heads.isEmpty || !toks.contains .ws)
+
+/-- `Decodable` with Existence and the lookahead for atomics (standard tables: `E` / `E!`) -/
+def DecodableLA (t : StringTable) (m : MaxIdx) : Bool := DecodableG t (symToks t m true) true []
+
+/-- a string that may follow a complete stream: nothing, or something starting with a mark head -/
+def Tail (heads : List (List Chr)) (X : List Chr) : Prop := X = [] ∨ ∃ mk ∈ heads, ∃ Y, X = mk ++ Y
+
 section
 variable {t : StringTable} {m : MaxIdx} {ex : Bool}
 
-/-- what `Decodable` gives, as propositions -/
-structure DecodableP (t : StringTable) (toks : List WTok) : Prop where
+/-- what `Decodable` / `DecodableG` give, as propositions -/
+structure DecodableP (t : StringTable) (toks : List WTok) (std : Bool) (heads : List (List Chr)) : Prop where
   head : ∀ k ∈ toks, ∃ c tl, renderTok t k = c :: tl ∧ isDigitChr c = false
-  code : ∀ k1 ∈ toks, ∀ k2 ∈ toks, (renderTok t k1).isPrefixOf (renderTok t k2) = true → k1 = k2
+  code : ∀ k1 ∈ toks, ∀ k2 ∈ toks, (renderTok t k1).isPrefixOf (renderTok t k2) = true →
+    k1 = k2 ∨ (std = true ∧ excused t heads k1 k2 = true)
   sub : (t.subOpen = [] ∧ t.subClose = []) ∨
         ((∃ c tl, t.subClose = c :: tl ∧ isDigitChr c = false) ∧
           ∀ k ∈ toks, t.subOpen.isPrefixOf (renderTok t k) = false ∧ (renderTok t k).isPrefixOf t.subOpen = false)
   nosub : ∀ n, WTok.sub n ∉ toks
+  hds : ∀ mk ∈ heads, headOK t toks mk = true
+  wsfree : std = false → heads ≠ [] → WTok.ws ∉ toks
 
 theorem symToks_nosub (t : StringTable) (m : MaxIdx) (ex : Bool) (n : Nat) : WTok.sub n ∉ symToks t m ex := by
   simp only [symToks, Op1.all, Op2.all, Quant.all]
@@ -113,10 +210,10 @@ theorem symToks_nosub (t : StringTable) (m : MaxIdx) (ex : Bool) (n : Nat) : WTo
   simp only [List.mem_append, List.mem_map, List.mem_cons, List.mem_ite_nil_right, reduceCtorEq, and_false,
     exists_false, or_false, List.not_mem_nil] at h
 
-theorem DecodableP.of_bool (h : Decodable t m ex = true) : DecodableP t (symToks t m ex) := by
+theorem DecodableP.of_bool (h : Decodable t m ex = true) : DecodableP t (symToks t m ex) false [] := by
   simp only [Decodable, Bool.and_eq_true, List.all_eq_true] at h
   obtain ⟨⟨h1, h2⟩, h3⟩ := h
-  refine ⟨?_, ?_, ?_, symToks_nosub t m ex⟩
+  refine ⟨?_, ?_, ?_, symToks_nosub t m ex, fun mk hmk => (by cases hmk), fun _ h => absurd rfl h⟩
   · intro k hk
     have := h1 k hk
     split at this
@@ -127,7 +224,7 @@ theorem DecodableP.of_bool (h : Decodable t m ex = true) : DecodableP t (symToks
     have := h2 k1 hk1 k2 hk2
     simp only [Bool.or_eq_true, beq_iff_eq, Bool.not_eq_true'] at this
     rcases this with e | e
-    · exact e
+    · exact Or.inl e
     · rw [hp] at e; cases e
   · split at h3
     · rename_i e
@@ -141,12 +238,65 @@ theorem DecodableP.of_bool (h : Decodable t m ex = true) : DecodableP t (symToks
       · rename_i c tl e
         exact ⟨c, tl, e, by simpa using h4⟩
 
-variable {toks : List WTok} (hd : DecodableP t toks)
+theorem DecodableP.of_boolG {toks : List WTok} {std : Bool} {heads : List (List Chr)}
+    (h : DecodableG t toks std heads = true) : DecodableP t toks std heads := by
+  simp only [DecodableG, Bool.and_eq_true, List.all_eq_true] at h
+  obtain ⟨⟨⟨⟨⟨h1, h2⟩, h3⟩, h4⟩, h5⟩, h6⟩ := h
+  refine ⟨?_, ?_, ?_, ?_, h5, ?_⟩
+  · intro k hk
+    have := h1 k hk
+    split at this
+    · cases this
+    · rename_i c tl e
+      exact ⟨c, tl, e, by simpa using this⟩
+  · intro k1 hk1 k2 hk2 hp
+    have := h2 k1 hk1 k2 hk2
+    simp only [Bool.or_eq_true, beq_iff_eq, Bool.not_eq_true', Bool.and_eq_true] at this
+    rcases this with (e | e) | e
+    · exact Or.inl e
+    · rw [hp] at e; cases e
+    · exact Or.inr e
+  · split at h3
+    · rename_i e
+      exact Or.inl ⟨e, by simpa using h3⟩
+    · right
+      simp only [Bool.and_eq_true, List.all_eq_true, Bool.not_eq_true'] at h3
+      obtain ⟨h4', h5'⟩ := h3
+      refine ⟨?_, h5'⟩
+      split at h4'
+      · cases h4'
+      · rename_i c tl e
+        exact ⟨c, tl, e, by simpa using h4'⟩
+  · intro n hn
+    have := h4 _ hn
+    simp [WTok.isSub] at this
+  · intro hs hh hw
+    subst hs
+    simp only [Bool.false_or, Bool.or_eq_true, List.isEmpty_iff, Bool.not_eq_true',
+      List.contains_eq_mem, decide_eq_false_iff_not] at h6
+    rcases h6 with h6 | h6
+    · exact hh h6
+    · exact h6 hw
+
+variable {toks : List WTok} {std : Bool} {heads : List (List Chr)} (hd : DecodableP t toks std heads)
 include hd
 
-theorem render_head_nonDigit (ts : List WTok) (ha : Adm toks ts) (hn : NoSub ts) : HeadNonDigit (render t ts) := by
+theorem tail_head_nonDigit {X : List Chr} (hx : Tail heads X) : HeadNonDigit X := by
+  rcases hx with rfl | ⟨mk, hmk, Y, rfl⟩
+  · intro c hc; simp at hc
+  · have := hd.hds mk hmk
+    simp only [headOK, Bool.and_eq_true] at this
+    obtain ⟨⟨⟨h1, _⟩, _⟩, _⟩ := this
+    split at h1
+    · cases h1
+    · intro c hc
+      simp only [List.cons_append, List.head?_cons, Option.mem_def, Option.some.injEq] at hc
+      rw [← hc]; simpa using h1
+
+theorem render_head_nonDigit (ts : List WTok) (X : List Chr) (ha : Adm toks ts) (hn : NoSub ts)
+    (hx : Tail heads X) : HeadNonDigit (render t ts ++ X) := by
   cases ts with
-  | nil => intro c hc; simp [render] at hc
+  | nil => simpa [render] using tail_head_nonDigit hd hx
   | cons k rest =>
     obtain ⟨hk, _⟩ := ha
     rcases hk with ⟨n, rfl, _, _⟩ | hk
@@ -164,36 +314,124 @@ theorem sub_ne_nil (n : Nat) : renderTok t (.sub n) ≠ [] := by
   simp only [List.append_eq_nil_iff, List.map_eq_nil_iff] at h
   exact decDigits_ne_nil n h.1.2
 
+omit hd in
+/-- the first character of a rendered subscript: the opener's, or a digit -/
+theorem sub_head (n : Nat) : ∃ c tl, renderTok t (.sub n) = c :: tl ∧
+    (t.subOpen.head? = some c ∨ (t.subOpen = [] ∧ isDigitChr c = true)) := by
+  obtain ⟨d, ds, hds⟩ : ∃ d ds, decDigits n = d :: ds := by
+    cases h' : decDigits n with
+    | nil => exact absurd h' (decDigits_ne_nil n)
+    | cons d ds => exact ⟨d, ds, rfl⟩
+  cases so : t.subOpen with
+  | nil =>
+    refine ⟨digitChr d, ds.map digitChr ++ t.subClose, by simp [renderTok, so, hds], Or.inr ⟨rfl, ?_⟩⟩
+    exact isDigitChr_digitChr d (decDigits_lt n d (by simp [hds]))
+  | cons c tl => exact ⟨c, tl ++ ((decDigits n).map digitChr ++ t.subClose), by simp [renderTok, so], Or.inl rfl⟩
+
+/-- symbol against subscript is impossible -/
+theorem symsub (k : WTok) (n : Nat) (R R' : List Chr) (hk : k ∈ toks)
+    (hh : renderTok t k ++ R = renderTok t (.sub n) ++ R') : False := by
+  rcases hd.sub with ⟨so, sc⟩ | ⟨_, hinc⟩
+  · obtain ⟨c, tl, e, hc⟩ := hd.head k hk
+    obtain ⟨d, ds, hds⟩ : ∃ d ds, decDigits n = d :: ds := by
+      cases h' : decDigits n with
+      | nil => exact absurd h' (decDigits_ne_nil n)
+      | cons d ds => exact ⟨d, ds, rfl⟩
+    rw [e] at hh
+    simp only [renderTok, so, sc, hds, List.nil_append, List.append_nil, List.map_cons, List.cons_append,
+      List.cons.injEq] at hh
+    rw [hh.1, isDigitChr_digitChr d (decDigits_lt n d (by simp [hds]))] at hc
+    cases hc
+  · have hh' : renderTok t k ++ R = t.subOpen ++ ((decDigits n).map digitChr ++ t.subClose ++ R') := by
+      simpa [renderTok, List.append_assoc] using hh
+    rcases append_prefix_cases hh' with p | p
+    · rw [(hinc k hk).2] at p; cases p
+    · rw [(hinc k hk).1] at p; cases p
+
+/-- an excused prefix pair cannot occur at the head of two equal renderings -/
+theorem excused_absurd (prev : Option WTok) (k1 k2 : WTok) (r1 : List WTok) (X1 R2 : List Chr)
+    (hs : std = true) (he : excused t heads k1 k2 = true)
+    (hp : (renderTok t k1).isPrefixOf (renderTok t k2) = true)
+    (a1 : Adm toks (k1 :: r1)) (f1 : Fol std prev (k1 :: r1)) (x1 : Tail heads X1)
+    (h : renderTok t k1 ++ (render t r1 ++ X1) = renderTok t k2 ++ R2) : False := by
+  subst hs
+  rw [List.isPrefixOf_iff_prefix] at hp
+  obtain ⟨rem, hrem⟩ := hp
+  simp only [excused, Bool.and_eq_true] at he
+  obtain ⟨hatom, he⟩ := he
+  rw [← hrem, List.drop_left] at he
+  cases rem with
+  | nil => simp at he
+  | cons c rem' =>
+    simp only [Bool.and_eq_true, Bool.not_eq_true', bne_iff_ne, ne_eq, List.all_eq_true] at he
+    obtain ⟨⟨⟨⟨hdig, hso⟩, hws⟩, hpc⟩, hhe⟩ := he
+    rw [← hrem, List.append_assoc] at h
+    have h' := List.append_cancel_left h
+    obtain ⟨i, rfl⟩ : ∃ i, k1 = .atom i := by
+      cases k1 <;> simp [WTok.isAtom] at hatom
+      exact ⟨_, rfl⟩
+    cases r1 with
+    | nil =>
+      simp only [render, List.flatMap_nil, List.nil_append] at h'
+      rcases x1 with rfl | ⟨mk, hmk, Y, rfl⟩
+      · simp at h'
+      · have hk := hd.hds mk hmk
+        simp only [headOK, Bool.and_eq_true] at hk
+        obtain ⟨⟨⟨h1, _⟩, _⟩, _⟩ := hk
+        cases mk with
+        | nil => simp at h1
+        | cons c' mk' =>
+          simp only [List.cons_append, List.cons.injEq] at h'
+          have := hhe _ hmk
+          simp [h'.1] at this
+    | cons k r1' =>
+      have hok := f1.1
+      simp only [okStep, List.head?_cons, atomNextOK, Bool.or_eq_true, beq_iff_eq, reduceCtorEq, false_or] at hok
+      rw [render_cons', List.append_assoc] at h'
+      have hk := a1.2.1
+      rcases hok with (hok | hok) | hok
+      · obtain ⟨n, rfl⟩ : ∃ n, k = .sub n := by
+          cases k <;> simp [WTok.isSub] at hok
+          exact ⟨_, rfl⟩
+        obtain ⟨c0, tl, e, hc0⟩ := sub_head (t := t) n
+        rw [e] at h'
+        simp only [List.cons_append, List.cons.injEq] at h'
+        rcases hc0 with hc0 | ⟨_, hc0⟩
+        · rw [h'.1] at hc0; exact hso hc0
+        · rw [h'.1, hdig] at hc0; cases hc0
+      · subst hok
+        rcases hk with ⟨n, e, _⟩ | hk
+        · cases e
+        · obtain ⟨c0, tl, e, _⟩ := hd.head _ hk
+          rw [e] at h'
+          simp only [List.cons_append, List.cons.injEq] at h'
+          apply hws
+          have : t.ws = c0 :: tl := e
+          rw [this, h'.1]; rfl
+      · subst hok
+        rcases hk with ⟨n, e, _⟩ | hk
+        · cases e
+        · obtain ⟨c0, tl, e, _⟩ := hd.head _ hk
+          rw [e] at h'
+          simp only [List.cons_append, List.cons.injEq] at h'
+          apply hpc
+          rw [e, h'.1]; rfl
+
 /-- one decoding step -/
-theorem step (t1 t2 : WTok) (r1 r2 : List WTok) (a1 : Adm toks (t1 :: r1)) (a2 : Adm toks (t2 :: r2))
-    (h : render t (t1 :: r1) = render t (t2 :: r2)) : t1 = t2 ∧ render t r1 = render t r2 := by
-  rw [render_cons', render_cons'] at h
-  obtain ⟨k1, ar1⟩ := a1
-  obtain ⟨k2, ar2⟩ := a2
-  -- symbol against subscript is impossible
-  have symsub : ∀ (k : WTok) (n : Nat) (R R' : List Chr), k ∈ toks →
-      renderTok t k ++ R = renderTok t (.sub n) ++ R' → False := by
-    intro k n R R' hk hh
-    rcases hd.sub with ⟨so, sc⟩ | ⟨_, hinc⟩
-    · obtain ⟨c, tl, e, hc⟩ := hd.head k hk
-      obtain ⟨d, ds, hds⟩ : ∃ d ds, decDigits n = d :: ds := by
-        cases h' : decDigits n with
-        | nil => exact absurd h' (decDigits_ne_nil n)
-        | cons d ds => exact ⟨d, ds, rfl⟩
-      rw [e] at hh
-      simp only [renderTok, so, sc, hds, List.nil_append, List.append_nil, List.map_cons, List.cons_append,
-        List.cons.injEq] at hh
-      rw [hh.1, isDigitChr_digitChr d (decDigits_lt n d (by simp [hds]))] at hc
-      cases hc
-    · have hh' : renderTok t k ++ R = t.subOpen ++ ((decDigits n).map digitChr ++ t.subClose ++ R') := by
-        simpa [renderTok, List.append_assoc] using hh
-      rcases append_prefix_cases hh' with p | p
-      · rw [(hinc k hk).2] at p; cases p
-      · rw [(hinc k hk).1] at p; cases p
+theorem step (p1 p2 : Option WTok) (t1 t2 : WTok) (r1 r2 : List WTok) (X1 X2 : List Chr)
+    (a1 : Adm toks (t1 :: r1)) (a2 : Adm toks (t2 :: r2))
+    (f1 : Fol std p1 (t1 :: r1)) (f2 : Fol std p2 (t2 :: r2)) (x1 : Tail heads X1) (x2 : Tail heads X2)
+    (h : render t (t1 :: r1) ++ X1 = render t (t2 :: r2) ++ X2) :
+    t1 = t2 ∧ render t r1 ++ X1 = render t r2 ++ X2 := by
+  rw [render_cons', render_cons', List.append_assoc, List.append_assoc] at h
+  have k1 := a1.1
+  have ar1 := a1.2
+  have k2 := a2.1
+  have ar2 := a2.2
   rcases k1 with ⟨n1, rfl, hn1, ns1⟩ | k1 <;> rcases k2 with ⟨n2, rfl, hn2, ns2⟩ | k2
   · -- subscript / subscript
-    have f1 := render_head_nonDigit hd r1 ar1 ns1
-    have f2 := render_head_nonDigit hd r2 ar2 ns2
+    have f1 := render_head_nonDigit hd r1 X1 ar1 ns1 x1
+    have f2 := render_head_nonDigit hd r2 X2 ar2 ns2 x2
     simp only [renderTok, List.append_assoc] at h
     have h' := List.append_cancel_left h
     have key : ∀ R : List Chr, HeadNonDigit R → HeadNonDigit (t.subClose ++ R) := by
@@ -203,15 +441,17 @@ theorem step (t1 t2 : WTok) (r1 r2 : List WTok) (a1 : Adm toks (t1 :: r1)) (a2 :
       · rw [e]; intro c' hc'; simp at hc'; rw [← hc']; exact hc
     obtain ⟨e1, e2⟩ := digits_inj _ _ _ _ (decDigits_lt n1) (decDigits_lt n2) (key _ f1) (key _ f2) h'
     exact ⟨by rw [decDigits_inj e1], List.append_cancel_left e2⟩
-  · exact (symsub t2 n1 _ _ k2 h.symm).elim
-  · exact (symsub t1 n2 _ _ k1 h).elim
+  · exact (symsub hd t2 n1 _ _ k2 h.symm).elim
+  · exact (symsub hd t1 n2 _ _ k1 h).elim
   · rcases append_prefix_cases h with p | p
-    · have := hd.code t1 k1 t2 k2 p
-      subst this
-      exact ⟨rfl, List.append_cancel_left h⟩
-    · have := hd.code t2 k2 t1 k1 p
-      subst this
-      exact ⟨rfl, List.append_cancel_left h⟩
+    · rcases hd.code t1 k1 t2 k2 p with e | ⟨hs, he⟩
+      · subst e
+        exact ⟨rfl, List.append_cancel_left h⟩
+      · exact (excused_absurd hd p1 t1 t2 r1 X1 _ hs he p a1 f1 x1 h).elim
+    · rcases hd.code t2 k2 t1 k1 p with e | ⟨hs, he⟩
+      · subst e
+        exact ⟨rfl, List.append_cancel_left h⟩
+      · exact (excused_absurd hd p2 t2 t1 r2 X2 _ hs he p a2 f2 x2 h.symm).elim
 
 theorem renderTok_ne_nil (k : WTok) (r : List WTok) (a : Adm toks (k :: r)) : renderTok t k ≠ [] := by
   rcases a.1 with ⟨n, rfl, _, _⟩ | hk
@@ -219,32 +459,91 @@ theorem renderTok_ne_nil (k : WTok) (r : List WTok) (a : Adm toks (k :: r)) : re
   · obtain ⟨c, tl, e, _⟩ := hd.head k hk
     rw [e]; simp
 
-/-- `render t` is injective on admissible token streams -/
-theorem render_inj : ∀ ts1 ts2 : List WTok, Adm toks ts1 → Adm toks ts2 → render t ts1 = render t ts2 → ts1 = ts2 := by
+/-- a mark tail is not the rendering of a further token -/
+theorem tail_absurd (prev : Option WTok) (k : WTok) (r : List WTok) (X1 X2 : List Chr)
+    (a : Adm toks (k :: r)) (f0 : Fol std prev []) (f : Fol std prev (k :: r)) (x1 : Tail heads X1)
+    (h : X1 = render t (k :: r) ++ X2) : False := by
+  rw [render_cons', List.append_assoc] at h
+  rcases x1 with rfl | ⟨mk, hmk, Y, rfl⟩
+  · have := renderTok_ne_nil hd k r a
+    have h' := h.symm
+    simp only [List.append_eq_nil_iff] at h'
+    exact this h'.1
+  · have hk := hd.hds mk hmk
+    simp only [headOK, Bool.and_eq_true, List.all_eq_true, Bool.or_eq_true, beq_iff_eq, Bool.not_eq_true'] at hk
+    obtain ⟨⟨⟨h1, h2⟩, h3⟩, h4⟩ := hk
+    rcases a.1 with ⟨n, rfl, _, _⟩ | hkt
+    · -- a subscript
+      rcases h2 with h2 | h2
+      · obtain ⟨c0, tl, e, hc0⟩ := sub_head (t := t) n
+        rw [e] at h
+        cases mk with
+        | nil => simp at h1
+        | cons c mk' =>
+          simp only [List.cons_append, List.cons.injEq] at h
+          rcases hc0 with hc0 | ⟨_, hc0⟩
+          · rw [List.isEmpty_iff] at h2; simp [h2] at hc0
+          · rw [← h.1] at hc0; simp [hc0] at h1
+      · have hh : mk ++ Y = t.subOpen ++ ((decDigits n).map digitChr ++ t.subClose ++ (render t r ++ X2)) := by
+          simpa [renderTok, List.append_assoc] using h
+        exact incomp_absurd h2 hh
+    · by_cases hw : k = .ws
+      · subst hw
+        cases std with
+        | false => exact hd.wsfree rfl (by intro e; rw [e] at hmk; cases hmk) hkt
+        | true =>
+          have hp := f0 rfl
+          have hok : (true == false || (optInF prev || optInF r.head?)) = true := f.1
+          rw [hp] at hok
+          cases r with
+          | nil => simp [optInF] at hok
+          | cons k' r' =>
+            have hok' : k'.inF = true := by simpa [optInF] using hok
+            have hk' : k' ∈ toks := by
+              rcases a.2.1 with ⟨n, e, _⟩ | hk'
+              · subst e; simp [WTok.inF] at hok'
+              · exact hk'
+            have := h4 k' hk'
+            rw [hok'] at this
+            simp only [Bool.true_eq_false, false_or] at this
+            rw [render_cons', List.append_assoc, ← List.append_assoc] at h
+            exact incomp_absurd this h
+      · rcases h3 k hkt with e | e
+        · exact hw e
+        · exact incomp_absurd e h
+
+/-- `render t` followed by mark tails is injective on admissible, follower-disciplined token streams -/
+theorem render_inj_tail : ∀ (ts1 ts2 : List WTok) (prev : Option WTok) (X1 X2 : List Chr),
+    Adm toks ts1 → Adm toks ts2 → Fol std prev ts1 → Fol std prev ts2 → Tail heads X1 → Tail heads X2 →
+    render t ts1 ++ X1 = render t ts2 ++ X2 → ts1 = ts2 ∧ X1 = X2 := by
   intro ts1
   induction ts1 with
   | nil =>
-    intro ts2 _ a2 h
+    intro ts2 prev X1 X2 _ a2 f1 f2 x1 _ h
     cases ts2 with
-    | nil => rfl
-    | cons k r =>
-      have := renderTok_ne_nil hd k r a2
-      rw [render_cons'] at h
-      simp [render] at h
-      exact absurd h.1 this
+    | nil => exact ⟨rfl, by simpa [render] using h⟩
+    | cons k r => exact (tail_absurd hd prev k r X1 X2 a2 f1 f2 x1 (by simpa [render] using h)).elim
   | cons k1 r1 ih =>
-    intro ts2 a1 a2 h
+    intro ts2 prev X1 X2 a1 a2 f1 f2 x1 x2 h
     cases ts2 with
-    | nil =>
-      have := renderTok_ne_nil hd k1 r1 a1
-      rw [render_cons'] at h
-      simp [render] at h
-      exact absurd h.1 this
+    | nil => exact (tail_absurd hd prev k1 r1 X2 X1 a1 f2 f1 x2 (by simpa [render] using h.symm)).elim
     | cons k2 r2 =>
-      obtain ⟨e, hr⟩ := step hd k1 k2 r1 r2 a1 a2 h
-      rw [e, ih r2 a1.2 a2.2 hr]
+      obtain ⟨e, hr⟩ := step hd prev prev k1 k2 r1 r2 X1 X2 a1 a2 f1 f2 x1 x2 h
+      subst e
+      obtain ⟨e1, e2⟩ := ih r2 (some k1) X1 X2 a1.2 a2.2 f1.2 f2.2 x1 x2 hr
+      exact ⟨by rw [e1], e2⟩
+
+/-- `render t` is injective on admissible, follower-disciplined token streams -/
+theorem render_inj (ts1 ts2 : List WTok) (a1 : Adm toks ts1) (a2 : Adm toks ts2)
+    (f1 : Fol std none ts1) (f2 : Fol std none ts2) (h : render t ts1 = render t ts2) : ts1 = ts2 :=
+  (render_inj_tail hd ts1 ts2 none [] [] a1 a2 f1 f2 (Or.inl rfl) (Or.inl rfl) (by simpa using h)).1
 
 end
+
+/-- nothing is asked of a stream when `std = false` -/
+theorem fol_false : ∀ (prev : Option WTok) (ts : List WTok), Fol false prev ts
+  | _, [] => by intro h; cases h
+  | _, k :: r => ⟨by simp [okStep], fol_false (some k) r⟩
 
 /-! ### the writers' streams are admissible -/
 
@@ -254,7 +553,7 @@ structure HasToks (toks : List WTok) (m : MaxIdx) (ex std : Bool) : Prop where
   op2 : ∀ o, WTok.op2 o ∈ toks
   quant : ∀ q, WTok.quant q ∈ toks
   identity : WTok.identity ∈ toks
-  ws : WTok.ws ∈ toks
+  ws : std = true → WTok.ws ∈ toks
   atom : ∀ i, i ≤ m.atom → WTok.atom i ∈ toks
   var : ∀ i, i ≤ m.var → WTok.var i ∈ toks
   const : ∀ i, i ≤ m.const → WTok.const i ∈ toks
@@ -271,7 +570,7 @@ theorem hasToks_symToks (t : StringTable) (m : MaxIdx) (ex : Bool) :
   · intro o; cases o <;> simp [symToks, Op2.all]
   · intro q; cases q <;> simp [symToks, Quant.all]
   · simp [symToks]
-  · simp [symToks]
+  · intro _; simp [symToks]
   · intro i hi; simp [symToks]; omega
   · intro i hi; simp [symToks]; omega
   · intro i hi; simp [symToks]; omega
@@ -393,7 +692,7 @@ theorem adm_std {toks : List WTok} {m : MaxIdx} {ex : Bool} (ht : HasToks toks m
       simp only [Constructible, arityOK, indexOK, Bool.and_eq_true, List.all_cons] at c
       simp only [List.append_assoc, List.cons_append]
       exact adm_paramToks ht a _ c.2.2.1
-        (adm_sym ht.ws (adm_sym ht.identity (adm_sym ht.ws (adm_paramsToks ht ps r c.2.2.2 hr hn)))) (noSub_ws _)
+        (adm_sym (ht.ws rfl) (adm_sym ht.identity (adm_sym (ht.ws rfl) (adm_paramsToks ht ps r c.2.2.2 hr hn)))) (noSub_ws _)
     | infixUser p a ps hid =>
       simp only [Constructible, arityOK, indexOK, Bool.and_eq_true, List.all_cons] at c
       simp only [List.append_assoc]
@@ -404,7 +703,7 @@ theorem adm_std {toks : List WTok} {m : MaxIdx} {ex : Bool} (ht : HasToks toks m
       simp only [Constructible, arityOK, indexOK, Bool.and_eq_true, List.all_cons] at c
       simp only [List.append_assoc, List.cons_append]
       exact adm_paramToks ht x _ c.2.2.1
-        (adm_sym ht.ws (adm_sym (ht.negIdentity rfl) (adm_sym ht.ws (adm_paramToks ht y r c.2.2.2.1 hr hn))))
+        (adm_sym (ht.ws rfl) (adm_sym (ht.negIdentity rfl) (adm_sym (ht.ws rfl) (adm_paramToks ht y r c.2.2.2.1 hr hn))))
         (noSub_ws _)
     | op1 op a =>
       simp only [Constructible, arityOK, indexOK] at c
@@ -431,7 +730,7 @@ theorem adm_std {toks : List WTok} {m : MaxIdx} {ex : Bool} (ht : HasToks toks m
       have hpcn : NoSub (WTok.parenClose :: r) := (tstops_parenClose r).noSub
       exact adm_sym (ht.parenOpen rfl)
         (ih a _ (by simp [Sent.size] at hsz; omega) ⟨c.1.1, c.2.1⟩ hexa
-          (adm_sym ht.ws (adm_sym (ht.op2 op) (adm_sym ht.ws
+          (adm_sym (ht.ws rfl) (adm_sym (ht.op2 op) (adm_sym (ht.ws rfl)
             (ih b _ (by simp [Sent.size] at hsz; omega) ⟨c.1.2, c.2.2⟩ hexb hpc hpcn))))
           (noSub_ws _))
 
@@ -452,7 +751,7 @@ theorem adm_standard {toks : List WTok} {m : MaxIdx} {ex : Bool} (ht : HasToks t
     have hb := adm_std ht o b.size b [] (Nat.le_refl _) ⟨c.1.2, c.2.2⟩ hexb trivial nn
     simp only [List.append_nil] at hb
     exact adm_std ht o a.size a _ (Nat.le_refl _) ⟨c.1.1, c.2.1⟩ hexa
-      (adm_sym ht.ws (adm_sym (ht.op2 op) (adm_sym ht.ws hb))) (noSub_ws _)
+      (adm_sym (ht.ws rfl) (adm_sym (ht.op2 op) (adm_sym (ht.ws rfl) hb))) (noSub_ws _)
   · have := adm_std ht o s.size s [] (Nat.le_refl _) c hex trivial nn
     simpa using this
 
